@@ -140,7 +140,7 @@ func c02FmtPtr(p *int64) string {
 // C02.f80
 
 func (c *c02) f80Rule() {
-	ru := c.r.Rule("C02.f80", "80-bit extended floats: NewFloat80FromBytes assembles sign/exponent from bytes 0..1 and the 64-bit mantissa from bytes 2..9 big-endian (bit by bit); Float64 moves the sign to bit 63, the top 52 fraction bits to bits 51..0, rebiases the exponent by 1023-16383 with all-zero/all-one exponents mapped to 0/0x7ff, and only places an exponent that fits the 11-bit field", 8)
+	ru := c.r.Rule("C02.f80", "80-bit extended floats: NewFloat80FromBytes assembles sign/exponent from bytes 0..1 and the 64-bit mantissa from bytes 2..9 big-endian (bit by bit); Float64 moves the sign to bit 63, the top 52 fraction bits to bits 51..0, rebiases the exponent by 1023-16383 with all-zero/all-one exponents mapped to 0/0x7ff, and only places an exponent that fits the 11-bit field; exponents outside the binary64 range return +-Inf / +-0", 11)
 	// NewFloat80FromBytes
 	if fn := c.p.Fn("internal/mathx.NewFloat80FromBytes"); fn == nil || len(fn.Params) != 1 {
 		ru.Undecided("FromBytes:anchor", "", "mathx.NewFloat80FromBytes(b) not found")
@@ -284,14 +284,74 @@ func (c *c02) f80Rule() {
 		gs, ok := env.EdgeGuards(ph, x.edge)
 		ru.Check(ok && c02HasAny(gs, x.guard), "Float64:exp-"+x.edge, pos, x.guard, fmt.Sprintf("exponent %s (%s) must be selected exactly under %s; is under %s", x.edge, x.what, x.guard, strings.Join(gs, " ")))
 	}
-	// range: the rebiased edge must be proven to fit 11 bits
+	// range: the rebiased edge must be proven to fit 11 bits (guards may be on any affine form of EXP)
 	gs, ok := env.EdgeGuards(ph, "-15360 + EXP")
+	gv, _ := env.EdgeGuardVals(ph, "-15360 + EXP")
 	if ok {
-		lo, hi := c02BoundsFrom(gs, "EXP")
-		fits := lo != nil && hi != nil && *lo-15360 >= 0 && *hi-15360 <= 2047
-		ru.Check(fits, "Float64:exp-range", pos, "rebiased exponent proven within 0..2047",
-			fmt.Sprintf("the rebiased exponent EXP-15360 is shifted to bit 52 without a range test (known: %s): for a binary80 exponent outside 15361..17406 it is negative or wider than 11 bits and spills into the sign bit / wraps, e.g. 2^16383 (se=0x7ffe) decodes as 0.5 and 2^2000 as a small negative number instead of +Inf", strings.Join(gs, " ")))
+		lo, hi := env.AffineBounds(gv, "EXP")
+		fits := lo != nil && hi != nil && *lo-15360 >= 1 && *hi-15360 <= 2046
+		ru.Check(fits, "Float64:exp-range", pos, fmt.Sprintf("rebiased exponent proven within %s..%s", c02FmtOff(lo), c02FmtOff(hi)),
+			fmt.Sprintf("the rebiased exponent EXP-15360 is shifted to bit 52 without being proven within 1..2046, the normal-number exponents (0 and 2047 are the reserved zero/subnormal and Inf/NaN encodings; known: %s): for a binary80 exponent outside 15361..17406 it is negative or wider than 11 bits and spills into the sign bit / wraps, e.g. 2^16383 (se=0x7ffe) decodes as 0.5 and 2^2000 as a small negative number instead of +Inf", strings.Join(gs, " ")))
 	}
+	// what happens to the exponents excluded by those guards: every other return of Float64 must be
+	// +-Inf for a rebiased exponent >= 2047 and +-0 for one <= 0, decided after the two special cases
+	var sgn ssa.Value
+	fw.EachInstr(fn, func(ins ssa.Instruction) {
+		if v, ok := ins.(*ssa.BinOp); ok && sgn == nil {
+			be3 := fw.NewBvEnv(fn, c.p.C02IntBits())
+			be3.Name = fieldSrc
+			if bv, ok := be3.Of(v); ok && bv.W == 64 && c02CheckBits(bv, []c02BitRun{{0, 0, "se", 15}}) == "" {
+				sgn = v
+			}
+		}
+	})
+	if sgn != nil {
+		env = env.With(map[ssa.Value]string{expField: "EXP", sgn: "SGN"})
+	}
+	nOver, nUnder := 0, 0
+	for _, b := range fn.Blocks {
+		ret, isRet := b.Instrs[len(b.Instrs)-1].(*ssa.Return)
+		if !isRet || ret.Results[0] == ssa.Value(fb) {
+			continue
+		}
+		v := env.Of(ret.Results[0])
+		var gvals []fw.Guard
+		for _, g := range fw.Guards(b) {
+			gvals = append(gvals, g.Normalize())
+		}
+		lo, hi := env.AffineBounds(gvals, "EXP")
+		notSpecial := env.HasGuard(b, "-(== 0 EXP)") && env.HasGuard(b, "-(== 32767 EXP)")
+		key := "Float64:out-of-range"
+		rpos := c.p.Rel(ret.Pos())
+		switch {
+		case v == "(call math.Inf 1 + -2*SGN)":
+			nOver++
+			ru.Check(notSpecial && lo != nil && *lo-15360 >= 2047, key+":inf", rpos, "+-Inf exactly for rebiased exponents >= 2047 that are not NaN/Inf encodings",
+				fmt.Sprintf("+-Inf is returned under %s; must be only for non-special exponents whose rebiased value is >= 2047", strings.Join(env.GuardSx(b), " ")))
+		case v == "(call math.Copysign 0 (conv float64 1 + -2*SGN))":
+			nUnder++
+			ru.Check(notSpecial && hi != nil && *hi-15360 <= 0, key+":zero", rpos, "+-0 exactly for rebiased exponents <= 0 that are not zero/subnormal encodings",
+				fmt.Sprintf("+-0 is returned under %s; must be only for non-special exponents whose rebiased value is <= 0", strings.Join(env.GuardSx(b), " ")))
+		default:
+			ru.Undecided(key, rpos, "a return of Float64 that is neither the assembled binary64 nor +-Inf / +-0 with the value's sign: "+v)
+		}
+	}
+	if ok {
+		lo, hi := env.AffineBounds(gv, "EXP")
+		if lo != nil && *lo > 1 {
+			ru.Check(nUnder == 1, "Float64:underflow", pos, "exponents below the binary64 range return +-0", "exponents below the binary64 range are excluded from the assembly but no +-0 return handles them")
+		}
+		if hi != nil && *hi < 32766 {
+			ru.Check(nOver == 1, "Float64:overflow", pos, "exponents above the binary64 range return +-Inf", "exponents above the binary64 range are excluded from the assembly but no +-Inf return handles them")
+		}
+	}
+}
+
+func c02FmtOff(p *int64) string {
+	if p == nil {
+		return "?"
+	}
+	return strconv.FormatInt(*p-15360, 10)
 }
 
 func c02ConstInt(v ssa.Value) (int64, bool) {
@@ -557,6 +617,8 @@ func init() {
 	f80 := "internal/mathx/float80.go"
 	ctl("c02-f80-bytes", "C02.f80", f80, "		int64(b[8])<<8 |\n		int64(b[9])<<0,", "		int64(b[9])<<8 |\n		int64(b[8])<<0,", "FromBytes:m")
 	ctl("c02-f80-bias", "C02.f80", f80, "exp64 := int64(exp) - 16383 + 1023", "exp64 := int64(exp) - 16383 + 1024", "Float64:expmap")
+	ctl("c02-f80-range", "C02.f80", f80, "	case exp64 >= 0x7FF:\n", "	case exp64 >= 0x800:\n", "Float64:exp-range")
+	ctl("c02-f80-order", "C02.f80", f80, "	case exp == 0:\n		// exponent is all zeroes.\n		exp64 = 0\n", "	case exp64 <= 0:\n		return math.Copysign(0, float64(1-2*int(sign)))\n	case exp == 0:\n		// exponent is all zeroes.\n		exp64 = 0\n", "Float64")
 	ctl("c02-f80-frac", "C02.f80", f80, "bits := sign<<63 | uint64(exp64)<<52 | frac>>11", "bits := sign<<63 | uint64(exp64)<<52 | frac>>12", "Float64:layout")
 	f16 := "internal/mathx/float16.go"
 	ctl("c02-f16-shift", "C02.f16", f16, "frac := uint32(in&float16FracMask) << 13", "frac := uint32(in&float16FracMask) << 12", "frac")
